@@ -225,6 +225,10 @@ func mutate(in []byte, rng *rand.Rand) ([]byte, string) {
 		return []byte{0}, "nul"
 	}
 	i := rng.Intn(len(b))
+	if rng.Intn(6) == 0 { // a control character the language does or does not count as white space
+		b[i] = []byte{'\f', '\v', '\r', '\t', 0x7f}[rng.Intn(5)]
+		return b, "ctrl"
+	}
 	switch rng.Intn(5) {
 	case 0:
 		return b[:i], "truncate"
